@@ -81,7 +81,8 @@ async def do_pyop(client: Any, op: dict) -> Any:
         return await py.bulkget([s(o) for o in op["scalars"]], [s(o) for o in op["repeaters"]],
                                 max_list_size=op["maxrep"])
     if k == "walk":
-        return await collect(py.walk(s(op["root"])))
+        kw = {"errors": op["errors"]} if "errors" in op else {}
+        return await collect(py.walk(s(op["root"]), **kw))
     if k == "multiwalk":
         return await collect(py.multiwalk([s(r) for r in op["roots"]]))
     if k == "bulkwalk":
